@@ -7,9 +7,21 @@ props = {json.loads(l)['id']: json.loads(l) for l in open('/verif/properties.jso
 p = props[pid]
 text = f"{p['title']}\n\n{p['statement']}\n\nQuantified over: {p['quantifier']['text']}\n\nCode anchors: {', '.join(p['anchors']['files'])}\n"
 open(f'/tmp/prop_{pid}.txt', 'w').write(text)
-wt = f'/tmp/seed_{pid}'
+wt = f'/tmp/seed_{pid}' + (sys.argv[2] if len(sys.argv) > 2 else '')
 if not os.path.isdir(wt):
     subprocess.check_call(['git', '-C', '/repo', 'worktree', 'add', '--detach', wt, 'HEAD'])
 tmpl = open('/verif/tools/seed_prompt.tmpl').read()
-open(f'/tmp/seed_prompt_{pid}.txt', 'w').write(tmpl.replace('@WT@', wt).replace('@PID@', pid).replace('@PROP@', text))
-print(f'/tmp/seed_prompt_{pid}.txt')
+# round 2+: name the ideas already used so that the new changes are different in kind
+import glob
+prev = []
+for d in sorted(glob.glob(f'/verif/seeded/{pid}-*')):
+    try:
+        first = [l for l in open(d + '/notes.md').read().splitlines() if l.strip()][0].lstrip('# ').strip()
+        files = [l.split(' b/')[-1] for l in open(d + '/patch.diff') if l.startswith('diff --git')]
+        prev.append(f'- {first} ({", ".join(files)})')
+    except Exception: pass
+if prev:
+    tmpl = tmpl.replace('Make the three changes different in kind', 'These ideas were ALREADY used by earlier rounds -- do not repeat them or close variants, find different mechanisms and different functions:\n' + '\n'.join(prev) + '\nMake the three changes different in kind')
+
+open(f'/tmp/seed_prompt_{pid}' + (sys.argv[2] if len(sys.argv) > 2 else '') + '.txt', 'w').write(tmpl.replace('@WT@', wt).replace('@PID@', pid).replace('@PROP@', text))
+print(f'/tmp/seed_prompt_{pid}' + (sys.argv[2] if len(sys.argv) > 2 else '') + '.txt')
